@@ -83,6 +83,26 @@ pub fn style_value(s: &mut Src, v: &str) -> String {
     format!("{}{}{}", l, v, r)
 }
 
+/// Characters whose Unicode case mappings change their UTF-8 length (or turn into ASCII): code that
+/// computes offsets on a case-mapped copy and applies them to the original goes wrong on them.
+pub const CASE_HAZARDS: [&str; 10] = ["\u{212a}", "\u{130}", "\u{23a}", "\u{1e9e}", "\u{df}", "\u{1c5}", "\u{fb01}", "\u{390}", "\u{17f}", "\u{2126}"];
+
+/// 1..3 such characters inserted at drawn character boundaries of a value (start and the place in
+/// front of the last comma preferred)
+pub fn hazard_value(s: &mut Src, v: &str) -> String {
+    let mut out = v.to_string();
+    for _ in 0..s.range(1, 3) {
+        let bounds: Vec<usize> = (0..=out.len()).filter(|i| out.is_char_boundary(*i)).collect();
+        let at = match s.weighted(&[4, 3, 3]) {
+            0 => 0,
+            1 => out.rfind(',').unwrap_or(0),
+            _ => bounds[s.below(bounds.len())],
+        };
+        out.insert_str(at, CASE_HAZARDS[s.below(CASE_HAZARDS.len())]);
+    }
+    out
+}
+
 /// a comma-separated list of items with optional parameters/weights (Accept, Accept-Encoding, ...)
 pub fn weighted_list(s: &mut Src, items: &[&str], benign_only: bool) -> String {
     const PARAMS: [&str; 12] = ["", ";q=0.5", "; q=0.5", ";q=1.0", ";q=0", "; q=0", ";q=nan", ";q=inf", ";q=-1", ";q=1e99", ";q=", ";level=1"];
@@ -122,8 +142,8 @@ fn header_line(s: &mut Src, cfg: &GenCfg, notes: &mut Notes, out: &mut Vec<u8>) 
             }
         }
         3 => {
-            let v = ["chunked", "identity", "gzip", "Chunked", ""];
-            ("Transfer-Encoding".into(), v[s.weighted(&[8, 4, 2, 1, 1])].to_string())
+            let v = ["chunked", "identity", "gzip", "Chunked", "", "gzip, br", "chunked,", ", x", "\u{212a}, gzip", "\u{130}\u{130},"];
+            ("Transfer-Encoding".into(), v[s.weighted(&[16, 8, 4, 2, 2, 1, 1, 1, 1, 1])].to_string())
         }
         4 => ("Server".into(), "whatever".into()),
         5 => {
@@ -160,8 +180,11 @@ fn header_line(s: &mut Src, cfg: &GenCfg, notes: &mut Notes, out: &mut Vec<u8>) 
                 ("X-C".into(), "d".into())
             } else {
                 // malformed line, written raw
-                let raw: &[u8] = match s.below(5) {
+                let raw: &[u8] = match s.below(8) {
                     0 => b"no colon here",
+                    5 => b" ",
+                    6 => b"\t \t",
+                    7 => b"\xe3\x80\x80\xc2\xa0",
                     1 => b"X-Bad: \xff\xfe",
                     2 => b"\xc3: x",
                     3 => b"X-CR: a\rb",
@@ -173,6 +196,13 @@ fn header_line(s: &mut Src, cfg: &GenCfg, notes: &mut Notes, out: &mut Vec<u8>) 
                 return;
             }
         }
+    };
+    // now and then the value of a field with tolerated values carries case-mapping hazards
+    let value = if (kind <= 3 || (kind == 5 && !cfg.error_free && cfg.corrupt > 0)) && s.chance(14) {
+        notes.add("hdr_case_hazard");
+        hazard_value(s, &value)
+    } else {
+        value
     };
     let name = if (1..=5).contains(&kind) { style_name(s, &name) } else { name };
     let value = if kind == 6 { format!(" {}", value) } else { style_value(s, &value) };
